@@ -73,11 +73,14 @@ res["confirmed"] = bool(ok)
 dst = f"/verif/seeded/{name}" if name.startswith(prop + "-") else f"/verif/seeded/{prop}-{name}"
 if ok:
     os.makedirs(dst, exist_ok=True)
-    shutil.copy(os.path.join(src, "patch.diff"), dst)
+    same = os.path.realpath(src) == os.path.realpath(dst)   # re-run of a filed change
+    if not same:
+        shutil.copy(os.path.join(src, "patch.diff"), dst)
     for t in tests:
         b = os.path.basename(t)
-        shutil.copy(t, os.path.join(dst, b if b.endswith(".txt") else b + ".txt"))  # .txt: not part of any Go package
-    m2 = dict(meta); m2["verification"] = res
+        if not same:
+            shutil.copy(t, os.path.join(dst, b if b.endswith(".txt") else b + ".txt"))  # .txt: not part of any Go package
+    m2 = {k: v for k, v in meta.items() if k not in ("verification", "history")}; m2["verification"] = res
     old_meta_path = os.path.join(dst, "meta.json")
     if os.path.exists(old_meta_path):
         try:
